@@ -10,11 +10,11 @@ import "fmt"
 type memKind int
 
 const (
-	mBase   memKind = iota // symbolic initial contents
-	mZero                  // all zero (fresh local object)
-	mStore                 // term = (store base.term addr byte) ...
-	mHavoc                 // fresh F; keep(a) => F[a] = base[a]
-	mWrite                 // fresh F; a in [at,at+n) => F[a] = byteAt(a-at) else base[a]
+	mBase  memKind = iota // symbolic initial contents
+	mZero                 // all zero (fresh local object)
+	mStore                // term = (store base.term addr byte) ...
+	mHavoc                // fresh F; keep(a) => F[a] = base[a]
+	mWrite                // fresh F; a in [at,at+n) => F[a] = byteAt(a-at) else base[a]
 )
 
 type MemVer struct {
@@ -26,7 +26,7 @@ type MemVer struct {
 	// mWrite
 	at, n  string
 	byteAt func(st *State, k string) string // k is the BV64 offset inside the written range
-	seen   map[string]bool                   // addresses already instantiated (per MemVer; facts are path independent)
+	seen   map[string]bool                  // addresses already instantiated (per MemVer; facts are path independent)
 }
 
 // facts adds to st the instantiation facts needed for reading address a of m.
